@@ -65,6 +65,12 @@ func (x *Exec) atCallAssertions(s *State, site ssa.Instruction, calleeName strin
 }
 
 func (x *Exec) atCallAssertionsArgs(s *State, site ssa.Instruction, calleeName string, args []Val) {
+	x.atCallAssertionsCallee(s, site, calleeName, args, nil)
+}
+
+// atCallAssertionsCallee: callee is the function value being called (visible to
+// the clause as `callee`) when the call is dynamic.
+func (x *Exec) atCallAssertionsCallee(s *State, site ssa.Instruction, calleeName string, args []Val, callee Val) {
 	if len(s.frames) == 0 {
 		return
 	}
@@ -85,6 +91,9 @@ func (x *Exec) atCallAssertionsArgs(s *State, site ssa.Instruction, calleeName s
 		env := x.specEnvFrame(s)
 		for i, a := range args {
 			env.lets[fmt.Sprintf("arg%d", i)] = a
+		}
+		if callee != nil {
+			env.lets["callee"] = callee
 		}
 		t := env.evalBool(ac.Pred.Expr)
 		x.oblige(s, "assert", fmt.Sprintf("%s@%s", ac.Pred.Label, x.label(s, site)), t, site, ac.Pred.Src)
@@ -119,6 +128,12 @@ func (x *Exec) bindResult(s *State, site ssa.Instruction, calleeName string, k f
 					s2.binds = map[string]Val{}
 				}
 				s2.binds[b.Name] = v
+				if tv, ok := v.(*TupleV); ok {
+					// the components of a multi-value result: name0, name1, ...
+					for i, ev := range tv.E {
+						s2.binds[fmt.Sprintf("%s%d", b.Name, i)] = ev
+					}
+				}
 				x.clauseHit[b] = true
 			}
 		}
@@ -161,6 +176,8 @@ func (x *Exec) callValue(s *State, site ssa.Instruction, cc *ssa.CallCommon, fv 
 		return
 	}
 	// unknown function value: contract by named function type, else havoc
+	x.atCallAssertionsCallee(s, site, "dynamic:"+typeName(cc.Value.Type()), args, fv)
+	k = x.bindResult(s, site, "dynamic:"+typeName(cc.Value.Type()), k)
 	x.check(s, "nil", site, Not(f.Nil), "call of nil function value")
 	if nt, ok := cc.Value.Type().(*types.Named); ok && nt.Obj().Pkg() != nil {
 		if c := x.P.ifaceContract(nt.Obj().Pkg().Path(), nt.Obj().Name()); c != nil {
@@ -829,7 +846,7 @@ func mentionsBind(c *Contract, e ast.Expr) bool {
 	ast.Inspect(e, func(n ast.Node) bool {
 		if id, ok := n.(*ast.Ident); ok {
 			for _, b := range c.Binds {
-				if b.Name == id.Name {
+				if b.Name == id.Name || (strings.HasPrefix(id.Name, b.Name) && len(id.Name) == len(b.Name)+1 && id.Name[len(b.Name)] >= '0' && id.Name[len(b.Name)] <= '9') {
 					hit = true
 				}
 			}
